@@ -15,6 +15,10 @@ RULE = ('cases = corpus + random rules printed from abstract token lists (litera
         'flavour, named and anonymous; adjacent wildcards, adjacent literals, leading/trailing literals) x paths that '
         'instantiate the rule (then mutated) -> single-rule RadiRouter.resolve, Route.url(*anon, **kw) with the matched '
         'values, resolve again; plus a malformed stream calling Route.url with missing/extra/wrongly typed arguments. '
+        'Round-4 additions: sequences of url() calls on several Route objects built side by side or held by one '
+        'router (same rule twice, renamed copy, other filter argument; repeated calls; a complete call followed by one '
+        'lacking an argument), a fresh-interpreter baseline for ~1% of the cases, rex selectors and a user-registered '
+        'filter (implementation only), Unicode digits / lone surrogates / trailing newline. '
         'non-trivial = the path matched and the rule has at least one wildcard and one literal chunk; '
         'distinct by (rule, path or arguments)')
 TRUSTED = [
@@ -28,12 +32,54 @@ TRUSTED = [
     '(pattern_out, params, filters); the oracle compares every syntax flavour against the abstract rule it was printed from',
     'model/RouteSpec.v match1 (owned by C01) is the meaning of "the rule matches the path"; its agreement with '
     'RadiRouter.resolve on single-rule routers is part of this correspondence, the general statement is C01',
-    'rex filters (group selectors) are outside the property',
+    'rex filters (group selectors) and filters registered by the user are outside the model and the theorems; the '
+    'oracle checks the round trip for them on the implementation',
+    'C19_calls_independent holds of the model because it is a function; that Route.url keeps no state between calls is '
+    'checked by the correspondence on call sequences and by the fresh-interpreter baseline (VERIF_COVERAGE=1 prints the '
+    'line coverage of the anchored functions: 125/125)',
 ]
 ASSUMPTIONS = ['literal text of a rule contains no CR', 'wildcard names of a rule are distinct',
                'no rex selector filters']
 
 TAG_S, TAG_I, TAG_F = 0, 1, 2
+
+# Round-4 audit: everything of the anchored classes that can influence what C19 observes.
+API_SURFACE = [
+    ('Route(rule) / Route.__init__', 'covered by every case (single: through RadiRouter.add; multi via=route: built directly, '
+                                     'several side by side, the same rule twice)'),
+    ('Route.url(*args, **kw)', 'covered by path cases (matched values, anonymous ones positional), args cases (missing / '
+                               'extra / wrongly typed), multi cases (repeated and interleaved calls on shared objects)'),
+    ('Route.url early return (no params)', 'covered by static rules in all three kinds, incl. extra args/kw'),
+    ('Route.parse_rule (classmethod; also RadiRouter.parse_rule)', 'covered by every case; every syntax flavour printed by '
+                                                                     'print_tok; the oracle compares with the abstract rule'),
+    ('Route.make_params_dict', 'covered by path cases (kwargs of resolve compared with the named wildcards)'),
+    ('Route.params_signature', 'covered by every RadiRouter.add (filters handed to the tree); a mismatch shows as a '
+                               'rejected add in multi via=router'),
+    ('Route.anon_prefix', "covered: names starting with 'anon' but not 'anon-' (anon_1, anonymous2) are generated"),
+    ('Route.parser (class-level Parser instance)', 'covered: shared by all Routes of the process; fresh-process baseline'),
+    ('Route.pattern / pattern_out / params / filters / filters_out', 'covered (read by url / by the correspondence encoder)'),
+    ('Route.make_filter = FilterFactory.make_filter(filter, args)', 'covered: all table entries, with and without args, bottle '
+                                                                     'and dotted syntax, cache hit and miss'),
+    ('FilterFactory.filters (public table)', "covered: re, int, float, path in the model; rex and a user-registered entry "
+                                             "('up2', two-argument converter + own formatter) on the implementation only"),
+    ('FilterFactory._filter_cache (class-level, key filter(args))', 'covered: equal keys shared between Routes, same filter '
+                                                                    'with other args (_refilter), path filters with different following literals; fresh-process baseline'),
+    ('handler variants of make_filter', 'covered: one-argument converter (int, float), no converter (re, path), two-argument '
+                                        'converter returning _RouteFilterExhaust (rex) and a plain value (up2)'),
+    ('_rex / _RouteFilterExhaust / selectors', 'covered on the implementation only (oracle); excluded from the model and the '
+                                               'theorems: the selector rewrites the remaining path'),
+    ('RadiRouter.add(rule, methods, handler, name=)', 'covered: single rule; several rules, one method and one name each '
+                                                      '(multi via=router); overwrite= and meta= excluded: do not reach url'),
+    ('RadiRouter.__getitem__(name)', 'covered by multi via=router (the Route is fetched by name); dict/set keys excluded: '
+                                     'same Route object'),
+    ('RadiRouter.resolve(path, methods)', 'covered (observation point); methods=None form excluded: returns the Route only'),
+    ('RadiDict.get (param_keys / param_values)', 'covered (near-public: anonymous values are not in the kwargs)'),
+    ('RouteMethod.params (names per registration, fix F2)', 'covered by multi via=router with renamed rules -> finding '
+                                                            'F19-shared-route-names (url uses Route.params)'),
+    ('Route.add_method / set_method / remove_method / __call__ / methods', 'excluded: method table, C02'),
+    ('RadiRouter.remove / add_hook / remove_hook', 'excluded: C11'),
+    ('Parser / SymStream internals', 'excluded from the model (C01 stage 4); exercised by every rule flavour'),
+]
 
 
 # --------------------------------------------------------------------------
@@ -413,7 +459,7 @@ def gen(rng, n):
                 # malformed stream: explicit arguments
                 a, k = gen_args(rng, toks)
                 c = mk(toks, None, a, k)
-        if rng.random() < 0.012:
+        if rng.random() < 0.008:
             c['fresh'] = True                            # also observed in a fresh interpreter
         yield c
 
@@ -573,6 +619,9 @@ def _cov_enabled():
 
 
 def run_impl(case):
+    if case.get('isolate'):
+        # hermetic observation (used while shrinking sequences of calls, and by their replays)
+        return _fresh_process_observation({k: v for k, v in case.items() if k != 'isolate'})
     if _cov_enabled():
         import sys
         sys.settrace(_cov_tracer)
@@ -604,7 +653,7 @@ def _fresh_process_observation(case):
     tools = os.path.dirname(os.path.dirname(os.path.abspath(__file__)))
     code = ('import sys, json; sys.path[:0] = [%r, %r]; sys.dont_write_bytecode = True; import props.C19 as m; '
             'print(json.dumps(m._observe(json.loads(sys.stdin.read()))))' % (repo, tools))
-    c = {k: v for k, v in case.items() if k != 'fresh'}
+    c = {k: v for k, v in case.items() if k not in ('fresh', 'isolate')}
     r = subprocess.run([sys.executable, '-c', code], input=json.dumps(c), capture_output=True, text=True,
                        timeout=60, env=dict(os.environ, PYTHONHASHSEED='0'))
     if r.returncode != 0:
@@ -824,7 +873,7 @@ def _encode_single(case):
     except Exception:
         return [-1]
     po = route.pattern_out
-    obs = run_impl(case)
+    obs = _observe(case)
     if 'rule_error' in obs:
         return [-1]
     # the texts on which the model may consult a filter
@@ -1098,7 +1147,7 @@ def pred_float_reformatted_after_regex(case, what, m):
             hit = True
     if not hit:
         return False
-    obs = run_impl(case)
+    obs = _observe(case)
     b = obs.get('url')
     return bool(b) and b[0] == 'ok' and ''.join(chr(c) for c in b[1]) != case['path'].strip('/')
 
@@ -1192,14 +1241,17 @@ def shrink(case):
         for c in _shrink_single(case):
             yield c
         return
-    for sub in _subcases(case):
-        yield sub                                    # does one call alone fail?
+    # candidates are observed in a fresh interpreter each, so that what is kept does not depend on what
+    # other cases left behind in this process and the replay reproduces on its own
+    base = {k: v for k, v in case.items() if k != 'fresh'}
+    if not case.get('isolate'):
+        yield dict(base, isolate=True)
     ops = case['ops']
     for i in range(len(ops)):
         if len(ops) > 1:
-            yield dict(case, ops=ops[:i] + ops[i + 1:])
-    if case.get('fresh'):
-        yield {k: v for k, v in case.items() if k != 'fresh'}
+            yield dict(base, ops=ops[:i] + ops[i + 1:], isolate=True)
+    for sub in _subcases(case):
+        yield dict(sub, isolate=True)                # does one call alone fail?
 
 
 def _shape(toks):
@@ -1276,13 +1328,17 @@ MANIFEST = dict(
           'values. Refuted with witnesses (findings): adjacent int wildcards with -0, float printing with exponent/inf, re '
           'filter matching the empty string; recorded repair F19path (path wildcard followed by a literal). Model tied to '
           '/repo on every run by a differential correspondence (extracted OCaml + vm_compute) over match -> url -> re-match '
-          'and by pinning FilterFactory.filters; an independent oracle states the round trip on the implementation.'),
+          'and by pinning FilterFactory.filters; an independent oracle states the round trip on the implementation. '
+          'C19_calls_independent: in a sequence of url() calls the i-th observation is a function of the i-th call alone; '
+          'the correspondence runs such sequences on shared Route objects, on one router holding several rules and '
+          'against a fresh-interpreter baseline.'),
     note=('Trusted: Coq kernel + vm_compute; extraction (ExtrOcamlBasic only); the Python harness; Python re and float '
           'conversion/printing enter only as universally quantified functions (rx, fconv). Modelled, not verified: the int '
           'filter over ASCII digits only; the rule parser (the model starts from Route.parse_rule\'s output). match1 = the '
           'router\'s behaviour is C01\'s theorem; here it is validated on single-rule routers by the correspondence. '
           'Findings F19-float, F19-float-regex, F19-empty, F19-minus-zero are reproduced by the model and reported as '
-          'KNOWN-FINDING.'),
+          'KNOWN-FINDING; F19-shared-route-names (two rules of one router sharing a Route) and F19-rex-group lie outside '
+          'the property\'s quantifier (single rule, no rex) and are reported the same way.'),
     technique='Coq proof (loop invariant for the slice bookkeeping, induction over rule segments) + model/implementation '
               'correspondence + implementation-level round-trip oracle',
     design_ref='DESIGN.md section 4, C19 (and C01 for match1)',
